@@ -93,13 +93,8 @@ func run(schema *sqlgen.Schema, c Case) Rec {
 				if tg, ok := got.(interface{ Equal(interface{}) bool }); ok {
 					rec.Equal = tg.Equal(want)
 				}
-				// time values: the same instant; an empty byte slice may come back as nil or empty
+				// time values: the same instant ('' and NULL are different values: nil-ness of a byte slice must survive)
 				rec.Equal = rec.Equal || fmt.Sprintf("%v", got) == fmt.Sprintf("%v", want) && col.Kind == "time"
-				if b, ok := want.([]byte); ok && len(b) == 0 && b != nil {
-					if gb, ok := got.([]byte); ok && len(gb) == 0 {
-						rec.Equal = true
-					}
-				}
 				if !rec.Equal {
 					rec.Err = fmt.Sprintf("decoded %#v, want %#v (sql value %#v in form %T)", got, want, vals[idx], formed)
 				}
